@@ -1056,6 +1056,8 @@ class UTPM(Ring, RawAlgorithmsMixIn):
     def absolute(cls, x):
         """ computes y = absolute(x) in UTP arithmetic"""
 
+        if numpy.iscomplexobj(x.data):
+            return cls(cls._absolute(x.data))
         retval = x.clone()
         cls._absolute(x.data, out = retval.data)
         return retval
@@ -1410,6 +1412,8 @@ class UTPM(Ring, RawAlgorithmsMixIn):
 
         FIXME: theory tells us to check first coefficient if the zero'th coefficient is zero
         """
+        if numpy.iscomplexobj(self.data):
+            return self.__class__.absolute(self)
         # check if zero order coeff is smaller than 0
         tmp = self.data[0] < 0
         retval = self.clone()
